@@ -172,16 +172,21 @@ def run(ctx):
     ctx.rule("R8", "any port is ignored, also on the cache hosts redirection inference resolves: REDIRECTION_DOMAINS_RE accepts a port of 1-5 digits (regex-language inclusion)")
     redirect_spellings(ctx, "R8")
     invariance_table(ctx, "R9")
+    U.rule_punycode(ctx, "R10")
+    from .c20 import protocol_language
+    protocol_language(ctx, "R11")
 
 
 INVARIANCE_BASES = [
     "http://a.com/x?b=1", "http://b.a.co.uk/Path/To?Q=1#/route", "https://www.youtube.com/watch?v=abcdefghijk", "https://youtu.be/abcdefghijk", "https://www.facebook.com/some.page/",
     "https://www.facebook.com/permalink.php?story_fbid=55&id=100", "https://twitter.com/User/status/1", "http://xn--caf-dma.fr/menu",
+    # a query item that is irrelevant on that site only (the per-domain filters key on the host, whatever surrounds it in the netloc)
+    "https://www.facebook.com/some.page/about?_rdr=1&x=2", "https://www.youtube.com/channel/UCabcdefghijklmnopqrstuv/videos?si=XyZ&x=2",
 ]
 
 
 def invariance_table(ctx, rule):
-    ctx.rule(rule, "model table (what fingerprint_url ignores): for one url per site kind {ordinary, multi-label suffix with routing fragment, YouTube watch / youtu.be, Facebook page / permalink, Twitter status, punycode host} x platform_aware x strip_suffix, the fingerprint (interpreted) is unchanged by: an explicit port, an upper-cased host, an upper-cased whole url (platform_aware=False: the platforms' own routes are case-sensitive), a leading 'fr.' / 'fr-FR.' label when two labels remain, added gl / hl items, and -- with strip_suffix -- another public suffix; and it never carries a scheme, userinfo or port")
+    ctx.rule(rule, "model table (what fingerprint_url ignores): for one url per site kind {ordinary, multi-label suffix with routing fragment, YouTube watch / youtu.be, Facebook page / permalink, Twitter status, punycode host, site-specific irrelevant query item} x platform_aware x strip_suffix, the fingerprint (interpreted) is unchanged by: an explicit port, an upper-cased host, an upper-cased whole url (platform_aware=False: the platforms' own routes are case-sensitive), a leading 'fr.' / 'fr-FR.' label when two labels remain, added gl / hl items, and -- with strip_suffix -- another public suffix; and it never carries a scheme, userinfo or port")
     from urllib.parse import urlsplit
     from . import tables as TB
     repo = ctx.repo
@@ -201,7 +206,7 @@ def invariance_table(ctx, rule):
         yield "lang-country-label", u.replace("://" + host, "://fr-FR." + bare, 1)
         head, _, frag = u.partition("#")
         yield "gl-hl", head + ("&" if "?" in head else "?") + "hl=fr&gl=US" + ("#" + frag if frag else "")
-        if ss and host.endswith(".com"):
+        if ss and host.endswith(".com") and "_rdr=" not in u and "si=" not in u:  # a site-specific filter names the site with its suffix
             yield "other-suffix", u.replace("://" + host, "://" + host[:-4] + ".co.uk", 1)
 
     n = 0
